@@ -262,6 +262,14 @@ Definition add_server (c : cell) (s : server) : cell :=
 Definition hole_child (child : Z) (l : list (option Z)) : list (option Z) :=
   map (fun o => match o with Some n => if Z.eqb n child then None else Some n | None => None end) l.
 
+(** the bucket part of parent.remove_node(server) *)
+Definition unhook_server (c : cell) (p : Z) (s : server) : cell :=
+  let c1 := c_upd_bkt p (fun b => b <| b_children ::= hole_child (s_name s) |>
+                                    <| b_child_traits ::= adel (s_name s) |>) c in
+  let c2 := propagate_traits (depth_fuel c1) c1 p in
+  let c3 := bump_affinity (depth_fuel c2) c2 p (s_counters s) (-1) in
+  adjust_down (depth_fuel c3) c3 p (Some (s_free s)).
+
 (** parent.remove_node(server): the server leaves the tree (and the model's server map) *)
 Definition detach_server (c : cell) (sname : Z) : cell :=
   match get_srv sname (c_servers c) with
@@ -270,13 +278,18 @@ Definition detach_server (c : cell) (sname : Z) : cell :=
       let c0 := c <| c_servers ::= del_srv sname |> in
       match s_parent s with
       | None => c0
-      | Some p =>
-          let c1 := c_upd_bkt p (fun b => b <| b_children ::= hole_child sname |>
-                                            <| b_child_traits ::= adel sname |>) c0 in
-          let c2 := propagate_traits (depth_fuel c1) c1 p in
-          let c3 := bump_affinity (depth_fuel c2) c2 p (s_counters s) (-1) in
-          adjust_down (depth_fuel c3) c3 p (Some (s_free s))
+      | Some p => unhook_server c0 p s
       end
+  end.
+
+(** old_parent.remove_node(server); new_parent.add_node(server): the server keeps its instances *)
+Definition move_server (c : cell) (sname newparent : Z) : cell :=
+  match get_srv sname (c_servers c) with
+  | None => c
+  | Some s =>
+      let c0 := match s_parent s with None => c | Some p => unhook_server c p s end in
+      let c1 := c_upd_srv sname (fun x => x <| s_parent := Some newparent |>) c0 in
+      attach_common c1 newparent sname (s_traits s) (s_counters s) [s_label s] (s_free s)
   end.
 
 (** ** Node.size(label): (integer part, number of eps summands) *)
